@@ -262,7 +262,7 @@ def main(tier, replay=None):
             check_libs(res, hbin, d)      # a recorded case about the bundled libraries
     else:
         check_libs(res, hbin, d)
-        n = 300 if tier == "quick" else 4000
+        n = 300 if tier == "quick" else 8000
         reqs = read_corpus("C05.cases") + gen_requests(sd, n, 2, 3, 0, first_tag=1000)
     if not reqs:
         return res.finish()
